@@ -382,7 +382,12 @@ func runC07(p params) error {
 			}
 		}
 	}
+	// configurations used through Config.Clone carry the fields this property depends on
+	cloneCases(out, []string{"tlcp", "dtlcp"}, map[string][]string{"tlcp": c07CloneFields, "dtlcp": c07CloneFields})
 	return out.Finish()
 }
 
 func init() { register("C07", runC07) }
+
+// the fields of a server configuration that decide how a client is authenticated
+var c07CloneFields = []string{"ClientAuth", "ClientCAs", "Time", "VerifyPeerCertificate", "VerifyConnection", "GetConfigForClient", "SessionCache", "CipherSuites"}
